@@ -88,15 +88,16 @@ def gaussianOf (d : K) : K := Scalar.exp (-(d * d)) / ofFrac 112 100
 def cosineOf (d : K) : K :=
   Scalar.cos (Scalar.pi / ofNat 2 * d) * mask (Scalar.lt d (ofNat 1)) * mask (Scalar.lt (-(ofNat 1)) d)
 
-/-- the Python expression `1.14136 * torch.exp(torch.tensor(2.0))` when the default dtype is float64.
-(`torch.tensor(2.0)` takes the *ambient default dtype*: under the float32 default the product is a float32
-0-dim tensor; drivers/C16.lean evaluates that variant with `Float32`.) -/
+/-- the Python float `1.14136 * math.exp(2.0)` (since e3nn commit d69bad1; before it the expression was
+`1.14136 * torch.exp(torch.tensor(2.0))`, a tensor of the ambient default dtype) -/
 def smoothFiniteConst : K := ofFrac 114136 100000 * Scalar.exp (ofNat 2)
 
-/-- `sfc * soft_unit_step(diff + 1) * soft_unit_step(1 - diff)`; `sfc` is the value of
-`1.14136 * torch.exp(torch.tensor(2.0))` -/
-def smoothFiniteOf (sfc d : K) : K :=
+/-- `sfc * soft_unit_step(diff + 1) * soft_unit_step(1 - diff)` for an arbitrary constant `sfc` -/
+def smoothFiniteWith (sfc d : K) : K :=
   sfc * softUnitStep (d + ofNat 1) * softUnitStep (ofNat 1 - d)
+
+/-- `1.14136 * math.exp(2.0) * soft_unit_step(diff + 1) * soft_unit_step(1 - diff)` -/
+def smoothFiniteOf (d : K) : K := smoothFiniteWith smoothFiniteConst d
 
 /-- `math.sqrt(0.25 + number / 2)` -/
 def fourierNorm (number : Nat) : K := Scalar.sqrt (ofFrac 1 4 + ofNat number / ofNat 2)
@@ -122,17 +123,17 @@ def besselAt (start stop : K) (cutoff : Bool) (x : K) (i : Nat) : K :=
   if !cutoff then out else out * mask (Scalar.lt (r / c) (ofNat 1)) * mask (Scalar.lt (ofNat 0) r)
 
 /-- component `i` of the result for one element `x` -/
-def basisAt (b : Basis) (cutoff : Bool) (sfc start stop : K) (number : Nat) (x : K) (i : Nat) : K :=
+def basisAt (b : Basis) (cutoff : Bool) (start stop : K) (number : Nat) (x : K) (i : Nat) : K :=
   match b with
   | .gaussian => gaussianOf (diffAt start stop number cutoff x i)
   | .cosine => cosineOf (diffAt start stop number cutoff x i)
-  | .smoothFinite => smoothFiniteOf sfc (diffAt start stop number cutoff x i)
+  | .smoothFinite => smoothFiniteOf (diffAt start stop number cutoff x i)
   | .fourier => fourierAt start stop number cutoff x i
   | .bessel => besselAt start stop cutoff x i
 
 /-- the row `out[..., :]` for one element `x` (the function is elementwise in `x`) -/
-def softOneHotRow (b : Basis) (cutoff : Bool) (sfc start stop : K) (number : Nat) (x : K) : List K :=
-  (List.range number).map (basisAt b cutoff sfc start stop number x)
+def softOneHotRow (b : Basis) (cutoff : Bool) (start stop : K) (number : Nat) (x : K) : List K :=
+  (List.range number).map (basisAt b cutoff start stop number x)
 
 /-- `soft_one_hot_linspace(x, start, end, number, basis, cutoff)` for one element `x`, with the error
 branches in the order the Python code reaches them:
@@ -140,7 +141,7 @@ branches in the order the Python code reaches them:
 2. `torch.linspace` rejects a negative number of points;
 3. `values[1]` needs two points;
 4. after `diff` is computed, an unknown `basis` string. -/
-def softOneHot (sfc x start stop : K) (number : Int) (basis : String) (cutoff : Option Bool) :
+def softOneHot (x start stop : K) (number : Int) (basis : String) (cutoff : Option Bool) :
     Except Err (List K) :=
   match cutoff with
   | none => .error .cutoffUnspecified
@@ -151,7 +152,7 @@ def softOneHot (sfc x start stop : K) (number : Int) (basis : String) (cutoff : 
     else
       match Basis.ofString? basis with
       | none => .error .invalidBasis
-      | some b => .ok (softOneHotRow b c sfc start stop number.toNat x)
+      | some b => .ok (softOneHotRow b c start stop number.toNat x)
 
 def sumSq (l : List K) : K := l.foldr (fun y acc => y * y + acc) (ofNat 0)
 
